@@ -61,7 +61,8 @@ def load_record(tmp, sc, idx):
     # the .gdb must carry the nulls; rebuild it from w2 (signature file stays)
     gs_tmp = os.path.join(d, 'ref.gs')
     scratch = os.path.join(tmp, f'scratch{idx}')           # built elsewhere: nothing but the final files is ever written at the database path
-    W.build_db(scratch, w2 if not sc.get('nulls') else dict(w2, genomes=[dict(g, key=g['key']) for g in genomes]), id_attr='key')
+    W.build_db(scratch, w2 if not sc.get('nulls') else dict(w2, genomes=[dict(g, key=g['key']) for g in genomes]), id_attr='key',
+               annot_order=sc.get('annot_order'))
     os.replace(os.path.join(scratch, 'ref.gdb'), os.path.join(d, 'ref.gdb'))
     shutil.rmtree(scratch, ignore_errors=True)
     # metadata id_attr as the scenario wants it (possibly None / junk): rewrite the attribute in place
@@ -188,6 +189,11 @@ def scenarios(ctx):
     yield dict(world=w, id_attr='genbank_acc', sig_order=list(range(n)), nulls=[(1, 'genbank_acc')], why='a genome with a null identifier')
     yield dict(world=w, id_attr='ncbi_id', sig_order=list(range(n)), nulls=[(0, 'ncbi_id')], why='a genome with a null identifier')
     yield dict(world=w, id_attr='key', sig_order=list(range(n)), nulls=[(2, 'refseq_acc')], why='null in an attribute that is not used: must load')
+    # genomes imported first and attached to the genome set later in another order (the rows of the two tables are ordered differently)
+    for attr in ATTRS:
+        for ao in ([3, 2, 1, 0], [2, 0, 3, 1]):
+            yield dict(world=w, id_attr=attr, sig_order=[1, 3, 0, 2], annot_order=ao, probe=True, extra=[dict(extra1[0], pos=2, id=(9999 if attr == 'ncbi_id' else 'unrelated_X'))],
+                       why=f'annotations inserted in order {ao}')
     # identifiers that differ only by trailing white space (blank, tab, newline) or by case: exact matching, nothing trimmed or folded
     for attr in ('key', 'genbank_acc', 'refseq_acc'):
         base = w['genomes'][0][attr]
